@@ -292,7 +292,9 @@ def r4(ctx):
         # acks sized with the fragments, initialised None
         bld = ctx.fn("connection:FragmentSender.build")
         init = [n for n in walk_own(bld.node) if isinstance(n, ast.Assign) and norm(n.targets[0]) == "self.acks"]
-        ctx.check(len(init) == 1 and norm(init[0].value) == "[None] * len(self.fragments)", "C07.R4", bld, "acks = [None] * len(fragments)", witness=[norm(i.value) for i in init])
+        from .common import sym_text as _sxa
+        ctx.check(len(init) == 1 and _sxa(bld, init[0].value, cfg_of(bld).node_of(init[0]), allow_calls=("len",)) == "[None] * len(self.fragments)", "C07.R4", bld,
+                  "acks = [None] * len(fragments)", witness=[norm(i.value) for i in init])
     # each fragment's callback is bound to its own index
     for q in ("connection:FragmentSender.build", "connection:FragmentSender.callback"):
         f = ctx.fn(q)
